@@ -361,6 +361,11 @@ pub fn buffered_input_from_reader_with_limit<'a, R: Read + 'a>(
     // decoder applies the size limit to the raw bytes and refuses truncated UTF-16 input.
     let decoder = DecodeReaderBytesBuilder::new()
         .encoding(None) // None = sniff BOM / use heuristics; set Some(encoding) to force
+        // UTF-8 input with a byte-order mark: drop the mark and hand the bytes on as they are, so
+        // that ChunkedChars validates them like unmarked input (the decoder would transcode them
+        // with replacement: a truncated or malformed sequence would become U+FFFD, not an error).
+        .utf8_passthru(true)
+        .strip_bom(true)
         .build(RawGate::new(reader, max_bytes));
 
     let error: ReaderInputError = Rc::new(RefCell::new(None));
